@@ -329,8 +329,36 @@ def sub_line(kind, data, props, d, idx, infos, model, ps):
     return f"gp sub {kind} {data.hex()} {props} {d} {idx} {inf} {model} | {fmt_pos(ps)}"
 
 
+def chains_cyclic(r, ps):
+    """cursive links with small random steps in both directions: plenty of cycles (2-cycles, 3-cycles, rho
+    shapes), what reverse_cursive_minor_offset has to survive; some nodes carry non-cursive types or no link"""
+    n = len(ps)
+    for i in range(n):
+        if r.chance(1, 8):
+            continue
+        c = r.choice([1, -1, 1, -1, 2, -2, 3, -3])
+        if not 0 <= i + c < n:
+            c = -c
+        if 0 <= i + c < n:
+            ps[i][4] = c
+            ps[i][5] = r.choice([2, 2, 2, 2, 2, 3, 1, 6])
+
+
+def chains_zigzag(r, ps):
+    """long chains whose links alternate in direction (0 -> 2 -> 1 -> 3 -> 2 ...) or run forward / backward:
+    what alternating RightToLeft flags leave behind"""
+    n = len(ps)
+    k = r.below(3)
+    for i in range(n):
+        c = (1 if k == 0 else -1 if k == 1 else (2 if i % 2 == 0 else -1))
+        if 0 <= i + c < n:
+            ps[i][4] = c; ps[i][5] = 2
+    if r.chance(1, 2) and n > 2:
+        ps[r.below(n)][4] = 0        # a root somewhere in the middle
+
+
 def gen_cursive(r):
-    n = r.range(2, 9)
+    n = r.range(2, 9) if r.chance(5, 6) else r.range(40, 160)
     d = r.choice(DIRS)
     props = (IGNORE_MARKS if r.chance(1, 2) else 0) | (RTL_FLAG if r.chance(1, 2) else 0)
     marks = [r.chance(1, 4) for _ in range(n)]
@@ -343,7 +371,7 @@ def gen_cursive(r):
     j = r.choice(cands)
     i = next((k for k in range(j - 1, -1, -1) if not skip(k)), None)
     ps = rand_pos(r, n)
-    k = r.below(4)
+    k = r.below(5)
     if k == 0:
         chains_cursive(r, ps)
     elif k == 1:
@@ -353,6 +381,8 @@ def gen_cursive(r):
             for t in range(n - 1): ps[t][4] = 1; ps[t][5] = 2
     elif k == 2:
         chains_mixed(r, ps)
+    else:
+        (chains_cyclic if r.chance(2, 3) else chains_zigzag)(r, ps)
     en, ex = recs[j + 1][0], (recs[i + 1][1] if i is not None else None)
     applies = int(i is not None and en is not None and ex is not None)
     en, ex = en or (0, 0), ex or (0, 0)
@@ -478,6 +508,17 @@ def classify_sub(ln, out):
         if m[-1] == "1":
             child = int(m[1]) if m[3] == "1" else int(m[2])
             ks.append("cursive:child-had-chain:" + str(int(ps[child][4] != 0 and ps[child][5] & 2 != 0)))
+            # length of the walk reverse_cursive_minor_offset makes from the child, and whether it closes a cycle
+            seen, cur, steps = set(), child, 0
+            parent = int(m[2]) if m[3] == "1" else int(m[1])
+            while 0 <= cur < len(ps) and cur not in seen and ps[cur][4] != 0 and ps[cur][5] & 2:
+                seen.add(cur); steps += 1
+                nxt = cur + ps[cur][4]
+                if nxt == parent: break
+                cur = nxt
+            else:
+                if cur in seen: ks.append("cursive:reverse-walk-closes-a-cycle")
+            ks.append("cursive:reverse-walk:" + ("0" if steps == 0 else "1-3" if steps < 4 else "4-31" if steps < 32 else "32+"))
     if out.startswith("panic"):
         ks.append(out)
     return ks
@@ -714,9 +755,11 @@ def pen_by_cluster(out):
     return res
 
 
-def attach_font(r):
+def attach_font(r, tangled=False):
     """marks / mkmk / cursive lookups, all under the common feature `mark` (applied in every direction,
-    in lookup-list order)"""
+    in lookup-list order).  tangled=True: the cursive lookups differ in IgnoreMarks and cover the marks too, which
+    makes them pair different glyphs and can tie the links into cycles (a -> b -> c -> a): no geometric oracle
+    holds there, the text must merely be shaped without a crash."""
     adv = [0] + [r.range(300, 900) for _ in range(NG - 1)]
     rec = {"num_glyphs": NG, "cmap": "pua", "advances": adv,
            "gdef": {"classes": {**{g: 1 for g in E_BASES}, **{g: 3 for g in E_MARKS}}}}
@@ -725,7 +768,8 @@ def attach_font(r):
     if r.chance(1, 3):
         rec["vorg"] = {"default": r.range(600, 900), "glyphs": {g: r.range(500, 950) for g in r.sample(range(1, NG), 4)}}
     sem, lookups = [], []
-    kinds = r.shuffle(["mark", "mkmk", "curs"] + (["curs"] if r.chance(1, 2) else []) + (["mark"] if r.chance(1, 4) else []))
+    kinds = r.shuffle(["mark", "mkmk", "curs"] + (["curs"] if r.chance(1, 2) else []) + (["curs"] if r.chance(1, 4) else [])
+                      + (["mark"] if r.chance(1, 4) else []))
     ignore_marks = r.chance(2, 3)
     for kd in kinds:
         if kd == "mark":
@@ -751,6 +795,9 @@ def attach_font(r):
         else:
             flag = (IGNORE_MARKS if ignore_marks else 0) | (RTL_FLAG if r.chance(1, 2) else 0)
             cv = [g for g in E_BASES if r.chance(5, 6)] or E_BASES[:2]
+            if tangled:
+                flag = (IGNORE_MARKS if r.chance(1, 2) else 0) | (RTL_FLAG if r.chance(1, 2) else 0)
+                cv = cv + [g for g in E_MARKS if r.chance(2, 3)]
             ee = {g: (ra(r) if r.chance(8, 9) else None, ra(r) if r.chance(8, 9) else None) for g in cv}
             lookups.append({"type": 3, "flag": flag, "subtables": [{"coverage": cv, "entry_exit": [ee[g] for g in cv]}]})
             sem.append({"kind": "curs", "flag": flag, "ee": ee})
@@ -873,7 +920,9 @@ def check_attach(sem, text, d, so, stats=None, unattached_zero=False):
 def attach_search(ctx, shim, r, nfonts, ntexts):
     groups, meta = [], []
     for f in range(nfonts):
-        rec, sem = attach_font(r)
+        tangled = f % 8 == 7
+        rec, sem = attach_font(r, tangled)
+        if tangled: sem = None
         fid = f"A{f}"
         lines, ms = [f"font {fid} {fontbuild.hexfont(rec)}"], []
         for _ in range(ntexts):
@@ -885,7 +934,7 @@ def attach_search(ctx, shim, r, nfonts, ntexts):
         groups.append(lines); meta.append((rec, sem, ms))
     outs = vlib.run_groups(shim, groups, timeout=900)
     stats = {"shapes": 0, "marks_checked": 0, "pairs_checked": 0, "long_mark_chains": 0, "long_cursive_runs": 0,
-             "main_axis_only": 0, "per_dir": {d: 0 for d in DIRS}}
+             "main_axis_only": 0, "tangled_monitor_only": 0, "per_dir": {d: 0 for d in DIRS}}
     bad = 0
     for (rec, sem, ms), o, g in zip(meta, outs, groups):
         if o[0] != "ok":
@@ -893,7 +942,12 @@ def attach_search(ctx, shim, r, nfonts, ntexts):
                           "font_line": g[0][:200]}); continue
         for (text, d), so, req in zip(ms, o[1:-1], g[1:-1]):
             stats["shapes"] += 1
-            why = check_attach(sem, text, d, so, stats)
+            if sem is None:          # tangled cursive lookups: crash / glyph-count monitor only
+                stats["tangled_monitor_only"] += 1
+                out = parse_shape(so)
+                why = None if out is not None and len(out) == len(text) else f"shape() failed on tangled cursive lookups: {so[:100]}"
+            else:
+                why = check_attach(sem, text, d, so, stats)
             if why:
                 bad += 1
                 if bad <= 2:
@@ -1073,28 +1127,6 @@ def btt_hook_witness(ctx, shim):
                            "request": ln, "observed": o})
 
 
-def reverse_depth_witness(ctx, shim):
-    """`reverse_cursive_minor_offset` has no nesting budget (neither has HarfBuzz's).  A 4-glyph font with two
-    cursive lookups — the first flagged RightToLeft, the second not — and 300 000 glyphs of text: the first lookup
-    builds the forward chain 0 -> 1 -> 2 ..., the second re-attaches glyph 1 to glyph 0 and reverses the rest of
-    the chain recursively: stack overflow, the process aborts.  (known_C01_reverse_cursive_unbounded is the
-    model-level statement.)"""
-    rec = {"num_glyphs": 4, "cmap": "pua", "advances": [0, 600, 0, 0], "gdef": {"classes": {1: 1}},
-           "gpos": {"features": [{"tag": "mark", "lookups": [0, 1]}], "lookups": [
-               {"type": 3, "flag": RTL_FLAG, "subtables": [{"coverage": [1], "entry_exit": [((0, 10), (500, 20))]}]},
-               {"type": 3, "flag": 0, "subtables": [{"coverage": [1], "entry_exit": [((0, 15), (500, 25))]}]}]}}
-    font = f"font R {fontbuild.hexfont(rec)}"
-    o = vlib.run_groups(shim, [[font, shape_line("R", "l", [1] * 300000)]], nproc=1, timeout=300)[0]
-    ctx.note_search("reverse-cursive-depth-witness", 1, 1,
-                    rule="300000 x the same glyph, font with a RightToLeft cursive lookup followed by a plain one")
-    if not o[1].startswith("ok"):
-        ctx.violation(f"shape() of 300000 glyphs joined by two cursive lookups (RightToLeft, then plain) does not return: "
-                      f"{o[1][:100]} (stack overflow in reverse_cursive_minor_offset: no nesting limit)",
-                      {"stage": "search", "stream": "reverse-cursive-depth", "theorem": "known_C01_reverse_cursive_unbounded",
-                       "font_line": font, "recipe": rec, "text": "300000 x glyph 1 (U+E000)", "direction": "l",
-                       "observed": o[1][:200]})
-
-
 def d3_hook_seed(ctx, shim, plans):
     """the former witness of defect D3 on hb_ot_layout_kern itself: RTL, kerning not requested, one format-0
     subtable, two glyphs — the driver must hand the buffer back in the order it got it."""
@@ -1209,9 +1241,8 @@ def run(ctx):
     mark_chain_search(ctx, shim, ctx.rng("markchain"), ctx.budget(3000, 200000))
     attach_search(ctx, shim, ctx.rng("attach"), ctx.budget(150, 10000), ctx.budget(8, 12))
     value_search(ctx, shim, ctx.rng("value"), ctx.budget(150, 10000), ctx.budget(8, 12), plans)
-    # the remaining known findings last, so that it never uses up the violation budget of the streams above
+    # the one remaining known finding last, so that it never uses up the violation budget of the streams above
     btt_hook_witness(ctx, shim)
-    reverse_depth_witness(ctx, shim)
 
 
 def intkeys(x):
@@ -1244,12 +1275,6 @@ def replay(ctx, rp):
         o = vlib.run_lines(shim, [rp["request"]], nproc=1)[0]
         print("impl:", o)
         return 0 if o.startswith("ok") and o.split()[2] == "1,2" else 1
-    if stream == "reverse-cursive-depth":
-        before = len(ctx.violations)
-        reverse_depth_witness(ctx, shim)
-        for v in ctx.violations[before:]:
-            print(v[0])
-        return 1 if len(ctx.violations) > before else 0
     if stream == "cursive-btt":
         o = vlib.run_lines(shim, [rp["request"]], nproc=1)[0]
         t = o.split()
